@@ -373,6 +373,15 @@ def rule_r10(ctx):
                      "recorded in unconsumed_body: the body bytes that follow are parsed and served as a new request" % c.line)
 
 
+def rule_r11(ctx):
+    from .. import numconv
+    r = ctx.rule("C16.R11", "T12", "Content-Length is a number: the value strtoull extracted from the header is used (or kept as the "
+                 "body size of the connection) only when the conversion consumed the whole header value -- `12abc` is a malformed "
+                 "length, to be refused, not a body of 12 bytes", floor=2)
+    fns = [f for f in ctx.prog.functions if "/supplemental/http/" in "/" + f.file]
+    numconv.check(ctx, r, fns, 2)
+
+
 def run(ctx):
     ctx.guard(rule_r1)
     ctx.guard(rule_r2)
@@ -385,3 +394,4 @@ def run(ctx):
     for rr in ctx.rules:
         if rr.id == "C11.R7":
             rr.id = "C16.R8"
+    ctx.guard(rule_r11)
